@@ -1,3 +1,284 @@
-/- C01 — property theorems only (helper lemmas live in `Rooc/Proofs`). -/
+/-
+C01 — Linearization preserves the feasible set.  PROPERTY THEOREMS ONLY (helper lemmas live in
+`Rooc/Proofs/Lin*.lean`).  `K` is any linearly ordered field with a floor (in particular ℚ and ℝ);
+models carry literals in `Ext K`; `Lin.linearizeWith` is the executable port of `Linearizer::linearize`
+that `./check C01` diffs bit-exactly against the Rust.
+
+FULL TARGET (stated here; only the parts that are PROVED appear below as declarations):
+
+  theorem c01 (m : Model (Ext K)) (b : BoundsMap (Ext K)) (d : List (DomVar (Ext K))) (lm : LinModel (Ext K)) :
+      linearizeWith m b d = .ok lm →
+      BoundsSound m b d →            -- C07's enclosure: every source-feasible ρ lies in the box `b`; `d` has the
+                                     -- names/usage marks of `m.domain` and every source-feasible ρ satisfies it
+      BooleanBoundsUntouched m b →   -- every Boolean variable has the range [0,1] in `b` (guaranteed by the bounds
+                                     -- analysis; without it the statement fails: `c01_counterexample`, planned)
+      FiniteLits m → WellScoped m → Defined m →
+                                     -- literals finite; every variable that occurs is declared with a usage mark;
+                                     -- every constraint side is defined (no division by a zero literal that a
+                                     -- rewrite `0 * _` erases — C10's known finding)
+      ∀ ρ, srcFeasible m ρ = true ↔
+           ∃ ρ', (∀ v ∈ usedDeclared m, ρ' v = ρ v) ∧ linFeasible lm ρ' = true
+
+Proof architecture (DESIGN.md §6 C01): Stage A gadget lemmas (this file, complete); Stage B affine
+fragment and the end-to-end theorem for purely affine models; Stage C abs/min/max
+under the requirement-indexed specification; Stage D logic values and assertions; Stage E the
+work-list loop and final assembly.  `tools/props/C01.json` (`level_note`) says which stages are proved.
+-/
+import Rooc.Proofs.LinGadgets
 namespace Rooc.Props.C01
+open Rooc Rooc.Lin
+open Rooc.Lin.Gadget (B01 DomMax DomMin)
+
+variable {K : Type} [Field K] [LinearOrder K] [IsStrictOrderedRing K]
+
+/-! ## Stage A — gadget lemmas
+
+Every local rewrite of the linearizer as a statement about plain elements of an ordered field.
+`B01 x` means `x = 0 ∨ x = 1`. -/
+
+/-! ### abs -/
+
+theorem abs_of_lower_nonneg {l e : K} (hl : 0 ≤ l) (he : l ≤ e) : |e| = e :=
+  Gadget.abs_of_lower_nonneg (l := l) (e := e) hl he
+
+theorem abs_of_upper_nonpos {u e : K} (hu : u ≤ 0) (he : e ≤ u) : |e| = -e :=
+  Gadget.abs_of_upper_nonpos (u := u) (e := e) hu he
+
+theorem abs_one_sided (z e : K) : (z ≥ e ∧ z ≥ -e) ↔ z ≥ |e| :=
+  Gadget.abs_one_sided z e
+
+theorem abs_exact_sound {l u e z p : K}
+    (hp : B01 p) (h1 : z ≥ e) (h2 : z ≥ -e)
+    (h3 : z ≤ e - (2 * l) * (1 - p)) (h4 : z ≤ -e + (2 * u) * p) : z = |e| :=
+  Gadget.abs_exact_sound (l := l) (u := u) (e := e) (z := z) (p := p) hp h1 h2 h3 h4
+
+theorem abs_exact_complete {l u e : K} (he1 : l ≤ e) (he2 : e ≤ u) :
+    ∃ p : K, B01 p ∧ |e| ≥ e ∧ |e| ≥ -e ∧ |e| ≤ e - (2 * l) * (1 - p) ∧ |e| ≤ -e + (2 * u) * p :=
+  Gadget.abs_exact_complete (l := l) (u := u) (e := e) he1 he2
+
+theorem abs_exact_iff {l u e z : K} (he1 : l ≤ e) (he2 : e ≤ u) :
+    (∃ p : K, B01 p ∧ z ≥ e ∧ z ≥ -e ∧ z ≤ e - (2 * l) * (1 - p) ∧ z ≤ -e + (2 * u) * p) ↔ z = |e| :=
+  Gadget.abs_exact_iff (l := l) (u := u) (e := e) (z := z) he1 he2
+
+theorem abs_in_aux_domain {l u e : K} (he1 : l ≤ e) (he2 : e ≤ u) : 0 ≤ |e| ∧ |e| ≤ max (-l) u :=
+  Gadget.abs_in_aux_domain (l := l) (u := u) (e := e) he1 he2
+
+/-! ### folds of `max` / `min` (the semantics of `max{…}` / `min{…}` is `xs.foldl max x`) -/
+
+theorem foldl_max_le_iff (z x : K) (xs : List K) :
+    xs.foldl max x ≤ z ↔ x ≤ z ∧ ∀ y ∈ xs, y ≤ z :=
+  Gadget.foldl_max_le_iff z x xs
+
+theorem le_foldl_min_iff (z x : K) (xs : List K) :
+    z ≤ xs.foldl min x ↔ z ≤ x ∧ ∀ y ∈ xs, z ≤ y :=
+  Gadget.le_foldl_min_iff z x xs
+
+theorem foldl_max_mem (x : K) (xs : List K) : xs.foldl max x ∈ x :: xs :=
+  Gadget.foldl_max_mem x xs
+
+theorem foldl_min_mem (x : K) (xs : List K) : xs.foldl min x ∈ x :: xs :=
+  Gadget.foldl_min_mem x xs
+
+theorem le_foldl_max (x : K) (xs : List K) : ∀ y ∈ x :: xs, y ≤ xs.foldl max x :=
+  Gadget.le_foldl_max x xs
+
+theorem foldl_min_le (x : K) (xs : List K) : ∀ y ∈ x :: xs, xs.foldl min x ≤ y :=
+  Gadget.foldl_min_le x xs
+
+theorem foldl_max_eq_iff (m x : K) (xs : List K) :
+    xs.foldl max x = m ↔ m ∈ x :: xs ∧ ∀ y ∈ x :: xs, y ≤ m :=
+  Gadget.foldl_max_eq_iff m x xs
+
+theorem foldl_min_eq_iff (m x : K) (xs : List K) :
+    xs.foldl min x = m ↔ m ∈ x :: xs ∧ ∀ y ∈ x :: xs, m ≤ y :=
+  Gadget.foldl_min_eq_iff m x xs
+
+theorem max_one_sided (z x : K) (xs : List K) : (∀ y ∈ x :: xs, z ≥ y) ↔ z ≥ xs.foldl max x :=
+  Gadget.max_one_sided z x xs
+
+theorem min_one_sided (z x : K) (xs : List K) : (∀ y ∈ x :: xs, z ≤ y) ↔ z ≤ xs.foldl min x :=
+  Gadget.min_one_sided z x xs
+
+/-! ### selector rows for exact max / min
+
+Operands are triples `(e, b, s)`: value, the bound used in the big-M constant (`l` for max, `u` for
+min), selector. -/
+
+theorem max_selector_sound {U z : K} (ops : List (K × K × K))
+    (hsel : ∀ t ∈ ops, B01 t.2.2) (hsum : (ops.map (·.2.2)).sum = 1)
+    (hge : ∀ t ∈ ops, z ≥ t.1) (hle : ∀ t ∈ ops, z ≤ t.1 + (U - t.2.1) * (1 - t.2.2)) :
+    z ∈ ops.map (·.1) ∧ ∀ y ∈ ops.map (·.1), y ≤ z :=
+  Gadget.max_selector_sound (U := U) (z := z) ops hsel hsum hge hle
+
+theorem min_selector_sound {L z : K} (ops : List (K × K × K))
+    (hsel : ∀ t ∈ ops, B01 t.2.2) (hsum : (ops.map (·.2.2)).sum = 1)
+    (hle : ∀ t ∈ ops, z ≤ t.1) (hge : ∀ t ∈ ops, z ≥ t.1 - (t.2.1 - L) * (1 - t.2.2)) :
+    z ∈ ops.map (·.1) ∧ ∀ y ∈ ops.map (·.1), z ≤ y :=
+  Gadget.min_selector_sound (L := L) (z := z) ops hsel hsum hle hge
+
+theorem max_selector_complete {U z : K} (ps : List (K × K))
+    (hb : ∀ p ∈ ps, p.2 ≤ p.1 ∧ p.1 ≤ U) (hmem : z ∈ ps.map (·.1)) (hub : ∀ y ∈ ps.map (·.1), y ≤ z) :
+    ∃ ss : List K, ss.length = ps.length ∧ (∀ s ∈ ss, B01 s) ∧ ss.sum = 1 ∧
+      ∀ t ∈ ps.zip ss, z ≥ t.1.1 ∧ z ≤ t.1.1 + (U - t.1.2) * (1 - t.2) :=
+  Gadget.max_selector_complete (U := U) (z := z) ps hb hmem hub
+
+theorem min_selector_complete {L z : K} (ps : List (K × K))
+    (hb : ∀ p ∈ ps, p.1 ≤ p.2 ∧ L ≤ p.1) (hmem : z ∈ ps.map (·.1)) (hlb : ∀ y ∈ ps.map (·.1), z ≤ y) :
+    ∃ ss : List K, ss.length = ps.length ∧ (∀ s ∈ ss, B01 s) ∧ ss.sum = 1 ∧
+      ∀ t ∈ ps.zip ss, z ≤ t.1.1 ∧ z ≥ t.1.1 - (t.1.2 - L) * (1 - t.2) :=
+  Gadget.min_selector_complete (L := L) (z := z) ps hb hmem hlb
+
+/-! ### sums of 0/1 values -/
+
+theorem sum01_bounds : ∀ (as : List K), (∀ a ∈ as, B01 a) → 0 ≤ as.sum ∧ as.sum ≤ (as.length : K) :=
+  Gadget.sum01_bounds
+
+theorem sum01_eq_zero_iff : ∀ (as : List K), (∀ a ∈ as, B01 a) → (as.sum = 0 ↔ ∀ a ∈ as, a = 0) :=
+  Gadget.sum01_eq_zero_iff
+
+theorem sum01_ge_one_iff : ∀ (as : List K), (∀ a ∈ as, B01 a) → (1 ≤ as.sum ↔ ∃ a ∈ as, a = 1) :=
+  Gadget.sum01_ge_one_iff
+
+theorem sum01_le_pred_iff : ∀ (as : List K), (∀ a ∈ as, B01 a) →
+    (as.sum ≤ (as.length : K) - 1 ↔ ∃ a ∈ as, a = 0) :=
+  Gadget.sum01_le_pred_iff
+
+theorem sum01_eq_length_iff (as : List K) (h : ∀ a ∈ as, B01 a) :
+    (as.sum = (as.length : K) ↔ ∀ a ∈ as, a = 1) :=
+  Gadget.sum01_eq_length_iff as h
+
+/-! ### reified logic values: rows over 0/1 operands force the auxiliary to the truth value -/
+
+theorem and_reify_iff {z : K} (as : List K) (hz : B01 z) (ha : ∀ a ∈ as, B01 a) :
+    ((∀ a ∈ as, z ≤ a) ∧ z ≥ as.sum - ((as.length : K) - 1)) ↔ (z = 1 ↔ ∀ a ∈ as, a = 1) :=
+  Gadget.and_reify_iff (z := z) as hz ha
+
+theorem or_reify_iff {z : K} (as : List K) (hz : B01 z) (ha : ∀ a ∈ as, B01 a) :
+    ((∀ a ∈ as, z ≥ a) ∧ z ≤ as.sum) ↔ (z = 1 ↔ ∃ a ∈ as, a = 1) :=
+  Gadget.or_reify_iff (z := z) as hz ha
+
+theorem implies_reify_iff {z a b : K} (hz : B01 z) (ha : B01 a) (hb : B01 b) :
+    (z ≥ 1 - a ∧ z ≥ b ∧ z ≤ 1 - a + b) ↔ (z = 1 ↔ (a = 1 → b = 1)) :=
+  Gadget.implies_reify_iff (z := z) (a := a) (b := b) hz ha hb
+
+theorem iff_reify_iff {z a b : K} (hz : B01 z) (ha : B01 a) (hb : B01 b) :
+    (z ≥ a + b - 1 ∧ z ≥ 1 - a - b ∧ z ≤ 1 - a + b ∧ z ≤ 1 + a - b) ↔ (z = 1 ↔ (a = 1 ↔ b = 1)) :=
+  Gadget.iff_reify_iff (z := z) (a := a) (b := b) hz ha hb
+
+theorem xor_reify_iff {z a b : K} (hz : B01 z) (ha : B01 a) (hb : B01 b) :
+    (z ≤ a + b ∧ z ≥ a - b ∧ z ≥ b - a ∧ z ≤ 2 - a - b) ↔ (z = 1 ↔ ¬ (a = 1 ↔ b = 1)) :=
+  Gadget.xor_reify_iff (z := z) (a := a) (b := b) hz ha hb
+
+theorem not_affine {e : K} (he : B01 e) : B01 (1 - e) ∧ ((1 - e = 1) ↔ ¬ (e = 1)) :=
+  Gadget.not_affine (e := e) he
+
+/-! ### affine assertion forms (`try_lower_affine_logic_assertion`), both polarities -/
+
+theorem assert_and_true (as : List K) (ha : ∀ a ∈ as, B01 a) :
+    as.sum = (as.length : K) ↔ ∀ a ∈ as, a = 1 :=
+  Gadget.assert_and_true as ha
+
+theorem assert_and_false (as : List K) (ha : ∀ a ∈ as, B01 a) :
+    as.sum ≤ (as.length : K) - 1 ↔ ¬ ∀ a ∈ as, a = 1 :=
+  Gadget.assert_and_false as ha
+
+theorem assert_or_true (as : List K) (ha : ∀ a ∈ as, B01 a) :
+    as.sum ≥ 1 ↔ ∃ a ∈ as, a = 1 :=
+  Gadget.assert_or_true as ha
+
+theorem assert_or_false (as : List K) (ha : ∀ a ∈ as, B01 a) :
+    as.sum = 0 ↔ ¬ ∃ a ∈ as, a = 1 :=
+  Gadget.assert_or_false as ha
+
+theorem assert_implies_true {a b : K} (ha : B01 a) (hb : B01 b) : a ≤ b ↔ (a = 1 → b = 1) :=
+  Gadget.assert_implies_true (a := a) (b := b) ha hb
+
+theorem assert_implies_false {a b : K} (ha : B01 a) (hb : B01 b) : a - b = 1 ↔ ¬ (a = 1 → b = 1) :=
+  Gadget.assert_implies_false (a := a) (b := b) ha hb
+
+theorem assert_iff_true {a b : K} (ha : B01 a) (hb : B01 b) : a = b ↔ (a = 1 ↔ b = 1) :=
+  Gadget.assert_iff_true (a := a) (b := b) ha hb
+
+theorem assert_iff_false {a b : K} (ha : B01 a) (hb : B01 b) : a + b = 1 ↔ ¬ (a = 1 ↔ b = 1) :=
+  Gadget.assert_iff_false (a := a) (b := b) ha hb
+
+theorem assert_xor_true {a b : K} (ha : B01 a) (hb : B01 b) : a + b = 1 ↔ ¬ (a = 1 ↔ b = 1) :=
+  Gadget.assert_xor_true (a := a) (b := b) ha hb
+
+theorem assert_xor_false {a b : K} (ha : B01 a) (hb : B01 b) : a = b ↔ ¬ ¬ (a = 1 ↔ b = 1) :=
+  Gadget.assert_xor_false (a := a) (b := b) ha hb
+
+/-! ### directional witnesses: a 0/1 witness `w` with `w = 1 ⇒ formula has the requested value`;
+`w = 0` is always allowed, and `w = 1` is allowed exactly when the children allow it. -/
+
+theorem witness_all_iff {w : K} (cs : List K) (hw : B01 w) (hc : ∀ c ∈ cs, B01 c) :
+    (∀ c ∈ cs, w ≤ c) ↔ (w = 1 → ∀ c ∈ cs, c = 1) :=
+  Gadget.witness_all_iff (w := w) cs hw hc
+
+theorem witness_any_iff {w : K} (cs : List K) (hw : B01 w) (hc : ∀ c ∈ cs, B01 c) :
+    w ≤ cs.sum ↔ (w = 1 → ∃ c ∈ cs, c = 1) :=
+  Gadget.witness_any_iff (w := w) cs hw hc
+
+theorem witness_iff_true {w a b : K} (hw : B01 w) (ha : B01 a) (hb : B01 b) :
+    (w ≤ 1 - a + b ∧ w ≤ 1 + a - b) ↔ (w = 1 → (a = 1 ↔ b = 1)) :=
+  Gadget.witness_iff_true (w := w) (a := a) (b := b) hw ha hb
+
+theorem witness_iff_false {w a b : K} (hw : B01 w) (ha : B01 a) (hb : B01 b) :
+    (w ≤ a + b ∧ w ≤ 2 - a - b) ↔ (w = 1 → ¬ (a = 1 ↔ b = 1)) :=
+  Gadget.witness_iff_false (w := w) (a := a) (b := b) hw ha hb
+
+theorem witness_assert (ws : List K) (hw : ∀ w ∈ ws, B01 w) : ws.sum ≥ 1 ↔ ∃ w ∈ ws, w = 1 :=
+  Gadget.witness_assert ws hw
+
+/-! ### comparison of a 0/1 value against a constant (`try_normalize_logic_constraint`):
+the four-way table on `(R 0, R 1)` where `R x := x ⋈ c`. -/
+
+theorem normalize_true {R : K → Prop} {x : K} (hx : B01 x) (h0 : ¬ R 0) (h1 : R 1) : R x ↔ x = 1 :=
+  Gadget.normalize_true (R := R) (x := x) hx h0 h1
+
+theorem normalize_false {R : K → Prop} {x : K} (hx : B01 x) (h0 : R 0) (h1 : ¬ R 1) : R x ↔ x = 0 :=
+  Gadget.normalize_false (R := R) (x := x) hx h0 h1
+
+theorem normalize_tautology {R : K → Prop} {x : K} (hx : B01 x) (h0 : R 0) (h1 : R 1) : R x :=
+  Gadget.normalize_tautology (R := R) (x := x) hx h0 h1
+
+theorem normalize_contradiction {R : K → Prop} {x : K} (hx : B01 x) (h0 : ¬ R 0) (h1 : ¬ R 1) : ¬ R x :=
+  Gadget.normalize_contradiction (R := R) (x := x) hx h0 h1
+
+/-! ### dominated-operand pruning of `linearize_extreme`
+
+Bounds live in any linear order `B` into which the field embeds (`B = K` for finite bounds,
+`B = WithBot (WithTop K)` or the like for `±∞`).  Operand `i` is *dominated* (dropped) when some other
+operand `j` has `L j ≥ U i`, unless both are the same fixed value, in which case only the one with
+the smaller index survives. -/
+
+section prune
+
+variable {B : Type} [LinearOrder B]
+
+theorem prune_max_exists (ι : K → B) (hι : ∀ a b, ι a ≤ ι b ↔ a ≤ b) (n : ℕ) (L U : ℕ → B) (v : ℕ → K)
+    (henc : ∀ i, i < n → L i ≤ ι (v i) ∧ ι (v i) ≤ U i) :
+    ∀ i, i < n → ∃ j, j < n ∧ ¬ DomMax L U n j ∧ v i ≤ v j :=
+  Gadget.prune_max_exists ι hι n L U v henc
+
+theorem prune_min_exists (ι : K → B) (hι : ∀ a b, ι a ≤ ι b ↔ a ≤ b) (n : ℕ) (L U : ℕ → B) (v : ℕ → K)
+    (henc : ∀ i, i < n → L i ≤ ι (v i) ∧ ι (v i) ≤ U i) :
+    ∀ i, i < n → ∃ j, j < n ∧ ¬ DomMin L U n j ∧ v j ≤ v i :=
+  Gadget.prune_min_exists ι hι n L U v henc
+
+theorem prune_max_iff (ι : K → B) (hι : ∀ a b, ι a ≤ ι b ↔ a ≤ b) (n : ℕ) (L U : ℕ → B) (v : ℕ → K)
+    (henc : ∀ i, i < n → L i ≤ ι (v i) ∧ ι (v i) ≤ U i) (z : K) :
+    ((∃ i, i < n ∧ v i = z) ∧ ∀ i, i < n → v i ≤ z) ↔
+    ((∃ j, j < n ∧ ¬ DomMax L U n j ∧ v j = z) ∧ ∀ j, j < n → ¬ DomMax L U n j → v j ≤ z) :=
+  Gadget.prune_max_iff ι hι n L U v henc z
+
+theorem prune_min_iff (ι : K → B) (hι : ∀ a b, ι a ≤ ι b ↔ a ≤ b) (n : ℕ) (L U : ℕ → B) (v : ℕ → K)
+    (henc : ∀ i, i < n → L i ≤ ι (v i) ∧ ι (v i) ≤ U i) (z : K) :
+    ((∃ i, i < n ∧ v i = z) ∧ ∀ i, i < n → z ≤ v i) ↔
+    ((∃ j, j < n ∧ ¬ DomMin L U n j ∧ v j = z) ∧ ∀ j, j < n → ¬ DomMin L U n j → z ≤ v j) :=
+  Gadget.prune_min_iff ι hι n L U v henc z
+
+end prune
+
+
 end Rooc.Props.C01
